@@ -11,6 +11,10 @@ import GeoProofs.Lemmas.RelateSpecSwap
 import GeoProofs.Lemmas.RelateSpecDisjoint
 import GeoProofs.Lemmas.RelateSpecRewrite
 import GeoProofs.Lemmas.RelateSpecReverse
+import GeoProofs.Lemmas.C01QAtoms
+import GeoProofs.Lemmas.C01QDisjoint
+import GeoProofs.Lemmas.C01QTypes
+import GeoProofs.Lemmas.C01QAreal
 import Mathlib.Tactic.NormNum
 
 namespace Geo.Proofs.C01
@@ -622,5 +626,149 @@ theorem locate_collection_perm {gs gs' : List Geom} (h : gs.Perm gs') (p : Pt) :
 
 example (g1 g2 g : Geom) : relateSpec (.collection [g1, g2]) g = relateSpec (.collection [g2, g1]) g :=
   relateSpec_collection_perm (List.Perm.swap _ _ _) g
+
+/-! ## 4'. Disjoint-envelope shortcut, full equality: IE / BE / EI / EB are the dimensions of `HasDimensions` -/
+
+/-- [T] the midpoint of an elementary sub-segment is never a vertex of the arrangement (the vertices on
+a segment are sorted by distance from its start), so every atom is a vertex atom or sits at a
+non-vertex point of a non-degenerate segment. -/
+theorem mem_atomsOf_cases {pa pb : Parts} {x : Atom} (hx : x ∈ Spec.atomsOf pa pb) :
+    (∃ v ∈ Spec.vertsOf pa pb, x = ⟨.zero, locateParts pa v, locateParts pb v⟩) ∨
+    (∃ s ∈ pa.allSegs ++ pb.allSegs, s.1 ≠ s.2 ∧ ∃ m, Geo.Proofs.Kernel.SegMem m s.1 s.2 ∧ m ∉ Spec.vertsOf pa pb ∧
+      Spec.IsAtomAt pa pb s.1 s.2 m x) := Spec.mem_atomsOf_cases hx
+
+/-- [T] conversely every non-degenerate segment carries the three atoms (midpoint, two face samples)
+of a non-vertex point. -/
+theorem exists_atoms_of_seg {pa pb : Parts} {s : Pt × Pt} (hs : s ∈ pa.allSegs ++ pb.allSegs) (hne : s.1 ≠ s.2) :
+    ∃ m, Geo.Proofs.Kernel.SegMem m s.1 s.2 ∧ m ∉ Spec.vertsOf pa pb ∧
+      ∀ x, Spec.IsAtomAt pa pb s.1 s.2 m x → x ∈ Spec.atomsOf pa pb := Spec.exists_atoms_of_seg hs hne
+
+/-- [T] for separated operands the cell `(X, Exterior)` is the largest dimension of an atom located
+`X` w.r.t. the first operand (`Spec.RowMax`). -/
+theorem cell_of_rowMax {pa pb : Parts} (h : Spec.Sep pa pb) (ca : Spec.ClosedExt pa) (cb : Spec.ClosedExt pb)
+    {X : Pos} (hX : X ≠ .outside) {d : Dim} (hm : Spec.RowMax pa pb X d) :
+    (relateParts pa pb).get X .outside = d := Spec.cell_of_rowMax h ca cb hX hm
+
+/-- [T] **disjoint-envelope shortcut, full equality on parts**: for separated operands the matrix of
+the specification is `compute_disjoint` of the row maxima Interior / Boundary of the two operands. -/
+theorem relateParts_disjoint_eq {pa pb : Parts} (h : Spec.Sep pa pb) (ca : Spec.ClosedExt pa) (cb : Spec.ClosedExt pb)
+    {da ba db bb : Dim}
+    (hia : Spec.RowMax pa pb .inside da) (hba : Spec.RowMax pa pb .onBoundary ba)
+    (hib : Spec.RowMax pb pa .inside db) (hbb : Spec.RowMax pb pa .onBoundary bb)
+    (hda : ba ≠ .empty → da ≠ .empty) (hdb : bb ≠ .empty → db ≠ .empty) :
+    relateParts pa pb = computeDisjoint da ba db bb :=
+  Spec.relateParts_disjoint_eq h ca cb hia hba hib hbb hda hdb
+
+/-- [T] **`relate` of operands with separated envelopes = `compute_disjoint` of what `HasDimensions`
+reports**, for operands whose `dims` / `boundaryDims` are the row maxima of the specification
+(`Spec.DimsSpec`, proved per type below).
+Full statement (no `DimsSpec` hypotheses): false as it stands — see `dimsSpec_*_witness` (one-coordinate
+LineString, degenerate Rect) — and open for polygons (needs S2: a valid polygon has an interior face
+sample) and for collections (`boundary_dimensions` of a collection is the maximum over the members,
+the specification applies the mod-2 rule across all members). -/
+theorem relateSpec_disjoint_eq_partial {a b : Geom} (h : Spec.Sep (parts a) (parts b))
+    (ca : Spec.ClosedExt (parts a)) (cb : Spec.ClosedExt (parts b)) (ha : Spec.DimsSpec a) (hb : Spec.DimsSpec b) :
+    relateSpec a b = computeDisjoint (dims a) (boundaryDims a) (dims b) (boundaryDims b) :=
+  Spec.relateSpec_disjoint_of_dimsSpec h ca cb ha hb
+
+/-- [T] one operand at a time: the cells IE and BE are `dims a` and `boundaryDims a`. -/
+theorem relateSpec_sep_row {a b : Geom} (h : Spec.Sep (parts a) (parts b))
+    (ca : Spec.ClosedExt (parts a)) (cb : Spec.ClosedExt (parts b)) (ha : Spec.DimsSpec a) :
+    (relateSpec a b).ie = dims a ∧ (relateSpec a b).be = boundaryDims a :=
+  ⟨Spec.cell_of_rowMax h ca cb (by decide) (ha.inside _), Spec.cell_of_rowMax h ca cb (by decide) (ha.boundary _)⟩
+
+/-- [T] … and EI, EB are `dims b` and `boundaryDims b`. -/
+theorem relateSpec_sep_col {a b : Geom} (h : Spec.Sep (parts a) (parts b))
+    (ca : Spec.ClosedExt (parts a)) (cb : Spec.ClosedExt (parts b)) (hb : Spec.DimsSpec b) :
+    (relateSpec a b).ei = dims b ∧ (relateSpec a b).eb = boundaryDims b := by
+  have ht : relateSpec a b = (relateSpec b a).transpose := relateSpec_transpose b a
+  have := relateSpec_sep_row h.symm cb ca hb
+  rw [ht]
+  generalize relateSpec b a = m at this ⊢
+  cases m
+  exact this
+
+/-- [T] per type: `HasDimensions` = row maxima of the specification. Point, MultiPoint. -/
+theorem dimsSpec_point (p : Pt) : Spec.DimsSpec (.point p) := Spec.dimsSpec_point p
+
+theorem dimsSpec_multiPoint (ps : List Pt) : Spec.DimsSpec (.multiPoint ps) := Spec.dimsSpec_multiPoint ps
+
+/-- [T] Line (degenerate or not). -/
+theorem dimsSpec_line (a b : Pt) : Spec.DimsSpec (.line a b) := Spec.dimsSpec_line a b
+
+/-- [T] LineString, open or closed, constant or not, any number of coordinates except one. -/
+theorem dimsSpec_lineString (cs : List Pt) (hlen : cs.length ≠ 1) : Spec.DimsSpec (.lineString cs) :=
+  Spec.dimsSpec_lineString cs hlen
+
+/-- the excluded class: a one-coordinate LineString is `ZeroDimensional` for `HasDimensions` but has an
+empty interior in the specification (no segment, so no point is located on it) -/
+theorem dimsSpec_lineString_witness : dims (.lineString [⟨0, 0⟩]) = .zero := by decide +kernel
+
+theorem dimsSpec_lineString_witness' : (relateSpec (.lineString [⟨0, 0⟩]) (.point ⟨5, 5⟩)).ie = .empty := by
+  decide +kernel
+
+/-- [T] MultiLineString without one-coordinate members: the boundary dimension by the mod-2 rule across
+the members (the fixed `boundary_dimensions`) is the row maximum Boundary of the specification. -/
+theorem dimsSpec_multiLineString (ls : List (List Pt)) (hlen : ∀ l ∈ ls, l.length ≠ 1) :
+    Spec.DimsSpec (.multiLineString ls) := Spec.dimsSpec_multiLineString ls hlen
+
+/-- [T] the number of collected open-member end points equal to `e` (what the fixed
+`MultiLineString::boundary_dimensions` counts) is the end point count of the specification. -/
+theorem count_mlsEnds (e : Pt) (ls : List (List Pt)) :
+    ((Spec.mlsEnds ls).filter (· == e)).length = endpointCount e ls := by
+  rw [Spec.count_mlsEnds, Spec.endpointCount_eq_esum]
+
+/-- two members sharing an end point: boundary `0` (the two outer ends); a closed path made of two
+members: boundary `F` -/
+example : boundaryDims (.multiLineString [[⟨0, 0⟩, ⟨1, 0⟩], [⟨1, 0⟩, ⟨1, 1⟩]]) = .zero := by decide +kernel
+example : boundaryDims (.multiLineString [[⟨0, 0⟩, ⟨1, 0⟩], [⟨1, 0⟩, ⟨0, 0⟩]]) = .empty := by decide +kernel
+
+/-- [T] Rect of positive width and height (interior face sample computed: the left sample beside the
+first edge has winding number 1). -/
+theorem dimsSpec_rect (mn mx : Pt) (hx : mn.x < mx.x) (hy : mn.y < mx.y) : Spec.DimsSpec (.rect mn mx) :=
+  Spec.dimsSpec_rect mn mx hx hy
+
+theorem rect_interior_sample (mn mx : Pt) (hx : mn.x < mx.x) (hy : mn.y < mx.y) :
+    Spec.HasInteriorSample (parts (.rect mn mx)) := Spec.rect_interior_sample mn mx hx hy
+
+/-- the excluded class: a degenerate Rect is `ZeroDimensional` with empty boundary for `HasDimensions`;
+in the specification the point is a boundary point of the (degenerate) ring -/
+theorem dimsSpec_rect_witness :
+    dims (.rect ⟨0, 0⟩ ⟨0, 0⟩) = .zero ∧ boundaryDims (.rect ⟨0, 0⟩ ⟨0, 0⟩) = .empty ∧
+    (relateSpec (.rect ⟨0, 0⟩ ⟨0, 0⟩) (.point ⟨5, 5⟩)).ie = .empty ∧
+    (relateSpec (.rect ⟨0, 0⟩ ⟨0, 0⟩) (.point ⟨5, 5⟩)).be = .zero :=
+  ⟨by decide +kernel, by decide +kernel, by decide +kernel, by decide +kernel⟩
+
+/-- [T] Polygon of dimension two, given an interior face sample.
+Full statement: `DimsSpec (.polygon q)` for every valid polygon — needs S2 (a valid polygon has a face
+sample of the arrangement in its interior). -/
+theorem dimsSpec_polygon_partial (q : Poly) (hd : polyDims q = .two)
+    (hi : Spec.HasInteriorSample (parts (.polygon q))) : Spec.DimsSpec (.polygon q) :=
+  Spec.dimsSpec_polygon_partial q hd hi
+
+/-- [T] MultiPolygon of dimension two, given an interior face sample and a boundary midpoint (a ring
+midpoint of one member could lie strictly inside another member of an invalid MultiPolygon). -/
+theorem dimsSpec_multiPolygon_partial (ps : List Poly) (hd : mpolyDims ps = .two)
+    (hi : Spec.HasInteriorSample (parts (.multiPolygon ps))) (hb : Spec.HasBoundarySample (parts (.multiPolygon ps))) :
+    Spec.DimsSpec (.multiPolygon ps) := Spec.dimsSpec_multiPolygon_partial ps hd hi hb
+
+/-- a segment left of a rectangle: the whole matrix is `compute_disjoint` of the dimensions -/
+example : relateSpec (.line ⟨0, 0⟩ ⟨1, 1⟩) (.rect ⟨5, 0⟩ ⟨7, 2⟩) =
+    computeDisjoint (dims (.line ⟨0, 0⟩ ⟨1, 1⟩)) (boundaryDims (.line ⟨0, 0⟩ ⟨1, 1⟩))
+      (dims (.rect ⟨5, 0⟩ ⟨7, 2⟩)) (boundaryDims (.rect ⟨5, 0⟩ ⟨7, 2⟩)) := by
+  apply relateSpec_disjoint_eq_partial _ _ _ (dimsSpec_line _ _) (dimsSpec_rect _ _ (by norm_num) (by norm_num))
+  · left
+    intro a ha b hb
+    simp [Spec.allCoords, Poly.rings, parts, SM.rectToPolygon] at ha hb
+    rcases ha with rfl | rfl <;> rcases hb with rfl | rfl | rfl | rfl | rfl <;> norm_num
+  · intro q hq; simp [parts] at hq
+  · intro q hq
+    simp [parts] at hq
+    subst hq
+    rfl
+
+example : computeDisjoint (dims (.line ⟨0, 0⟩ ⟨1, 1⟩)) (boundaryDims (.line ⟨0, 0⟩ ⟨1, 1⟩))
+      (dims (.rect ⟨5, 0⟩ ⟨7, 2⟩)) (boundaryDims (.rect ⟨5, 0⟩ ⟨7, 2⟩)) = ⟨.empty, .empty, .one, .empty, .empty, .zero, .two, .one, .two⟩ := by
+  decide +kernel
 
 end Geo.Proofs.C01
